@@ -254,12 +254,13 @@ class Endpoint:
         self.calls.append(scope.get("path_params"))
 
 
-def run_router(iface, templates, path):
+def run_router(iface, templates, path, root=""):
+    """root: the mount point the server / an outer Subpaths already removed from the path (SCRIPT_NAME / root_path); routing is on `path` alone"""
     eps = [Endpoint(i) for i in range(len(templates))]
     if iface == "wsgi":
         app = WR.Router(*[(t, e.wsgi) for t, e in zip(templates, eps)])
         calls = []
-        list(app({"REQUEST_METHOD": "GET", "PATH_INFO": path}, lambda s, h, e=None: calls.append(s)))
+        list(app({"REQUEST_METHOD": "GET", "PATH_INFO": path, "SCRIPT_NAME": root}, lambda s, h, e=None: calls.append(s)))
         status = calls[0] if calls else None
     else:
         app = AR.Router(*[(t, e.asgi) for t, e in zip(templates, eps)])
@@ -270,7 +271,7 @@ def run_router(iface, templates, path):
 
         async def receive():
             return {"type": "http.disconnect"}
-        drive(app({"type": "http", "method": "GET", "path": path, "headers": []}, receive, send))
+        drive(app({"type": "http", "method": "GET", "path": path, "root_path": root, "headers": []}, receive, send))
         status = sent[0]["status"] if sent else None
     return status, eps
 
@@ -299,7 +300,7 @@ def job_route(job) -> report.JobResult:
 
     def fn():
         try:
-            status, eps = run_router(iface, templates, path)
+            status, eps = run_router(iface, templates, path, job.get("root", ""))
             err = None
         except ValueError as ex:  # conversion error: still decide what the spec says about this path
             status, eps, err = None, [], ex
@@ -352,7 +353,7 @@ def job_route(job) -> report.JobResult:
         if not (klass in ("param-text-wrong", "param-value-wrong") or "(z3 regex oracle)" in (detail or "")):
             e.last_sat = False  # class decided by forks, not by a final query: any model of the path condition is the witness
         m = e.witness()
-        wit = {"iface": iface, "routes": templates, "path": conc(path, m)}
+        wit = {"iface": iface, "routes": templates, "path": conc(path, m), "root": job.get("root", "")}
         with shims.off():
             cp = concrete_route(wit)
         if klass is not None:
@@ -443,7 +444,7 @@ def concrete_route(w) -> Optional[str]:
     try:
         templates, path = w["routes"], w["path"]
         try:
-            status, eps = run_router(w["iface"], templates, path)
+            status, eps = run_router(w["iface"], templates, path, w.get("root", ""))
         except Exception as ex:  # noqa: BLE001
             return f"exception {type(ex).__name__}: {ex}"
         exp = next((i for i, t in enumerate(templates) if py_route_match(t, path)), None)
@@ -809,6 +810,10 @@ def jobs(tier: str):
                 for n in (0, 1):
                     out.append(dict(name=f"route/{iface}/{tname}/literal{li}+{n}", kind="route", iface=iface, table=tname, n=n, prefix_text=t, weight=2))
         # date / decimal segments behind a fixed prefix so that the symbolic characters are spent on the parameter
+        # the router mounted below a prefix that its own routes also begin with (Subpaths(("/u", Router("/u/{id:int}", ...))))
+        for tname, root in (("int-str-lit", "/u"), ("any-lit", "/f"), ("two-params", "/a"), ("placeholder-before-literal", "/a")):
+            for n in range(0, 4):
+                out.append(dict(name=f"route/{iface}/{tname}/mounted-at:{root}/+{n}", kind="route", iface=iface, table=tname, n=n, prefix_text=root + "/", root=root, weight=3 ** n))
         out.append(dict(name=f"route/{iface}/decimal-then-str/s+5", kind="route", iface=iface, table="decimal-then-str", n=5, prefix_text="/s/", weight=600))
         out.append(dict(name=f"route/{iface}/decimal-int/q+5", kind="route", iface=iface, table="decimal-int", n=5, prefix_text="/q/", weight=600))
         out.append(dict(name=f"route/{iface}/decimal-date/d+10", kind="route", iface=iface, table="decimal-date", n=10, prefix_text="/d/", weight=5000))
